@@ -150,7 +150,7 @@ func (c *Ctx) resolverFamily() (*types.Func, map[*types.Func]bool) {
 
 // RuleR1: one resolver builds the tree in both phases.
 func RuleR1(c *Ctx) {
-	sc := c.Run.Begin("R1", "exactly one function links a directive to its parent; every Parent store, every AppendChild and every insert into a root directive list happens in it, and both tree-building phases (after scanning, after PASTE expansion) call it", 2)
+	sc := c.Run.Begin("R1", "exactly one function links a directive to its parent; every Parent store, every AppendChild and every insert into a root directive list happens in it, and both tree-building phases (after scanning, after PASTE expansion) call it", 1)
 	defer sc.End()
 	resolver, sites := c.resolverFunc()
 	if resolver == nil {
@@ -283,7 +283,7 @@ func rootStoreKind(info *types.Info, lhs ast.Expr, rhs ast.Expr) string {
 
 // RuleR2: the parenthesis protocol is wired end to end.
 func RuleR2(c *Ctx) {
-	sc := c.Run.Begin("R2", "HasExplicitContext is set only by the handler of the '(' lexeme; the ')' handler reaches the walk that stops at it; the scan stage cannot return success without the unclosed-context test having failed to find one", 2)
+	sc := c.Run.Begin("R2", "HasExplicitContext is set only by the handler of the '(' lexeme; the ')' handler reaches the walk that stops at it; the scan stage cannot return success without the unclosed-context test having failed to find one", 1)
 	defer sc.End()
 	pk := c.P.Pkg("core")
 	flag := c.Field("directive", "Directive", "HasExplicitContext")
@@ -529,7 +529,7 @@ func RuleR3(c *Ctx) {
 // parent it does not point to) inherits that URL's path-independent attributes (Tags)
 // while being catalogued as a root interaction.
 func RuleR4(c *Ctx) {
-	sc := c.Run.Begin("R4", "at every success return of the context resolver the directive is linked (Parent set and appended to that parent's children) or rooted (inserted into the root list, Parent untouched), never a mixture and never neither", 2)
+	sc := c.Run.Begin("R4", "at every success return of the context resolver the directive is linked (Parent set and appended to that parent's children) or rooted (inserted into the root list, Parent untouched), never a mixture and never neither", 1)
 	defer sc.End()
 	resolver, fam := c.resolverFamily()
 	parent := c.Field("directive", "Directive", "Parent")
@@ -749,7 +749,7 @@ func inspectNoLit(n ast.Node, fn func(ast.Node) bool) {
 // context restored from a value saved earlier (before the resolver moved it) points into
 // a sibling's finished subtree whenever placing the directive needed a walk upwards.
 func RuleR5(c *Ctx) {
-	sc := c.Run.Begin("R5", "outside the context resolver the current-context field is assigned only nil or a .Parent selection (the context moves outwards along Parent links; only the resolver moves it inwards)", 2)
+	sc := c.Run.Begin("R5", "outside the context resolver the current-context field is assigned only nil or a .Parent selection (the context moves outwards along Parent links; only the resolver moves it inwards)", 1)
 	defer sc.End()
 	resolver, _ := c.resolverFunc()
 	parent := c.Field("directive", "Directive", "Parent")
@@ -971,7 +971,7 @@ func RuleR2c(c *Ctx) {
 // directive's Parent, its position, its parameters - prunes subtrees by where they sit, so
 // a Path under a method inside a URL block is never collected.
 func RuleTW1(c *Ctx) {
-	sc := c.Run.Begin("TW1", "every recursive descent into Directive.Children is guarded only by tests of the children themselves, of the directive's kind, and by error checks", 2)
+	sc := c.Run.Begin("TW1", "every recursive descent into Directive.Children is guarded only by tests of the children themselves, of the directive's kind, and by error checks", 1)
 	defer sc.End()
 	children := c.Field("directive", "Directive", "Children")
 	enumT := c.Named("directive", "Enumeration")
